@@ -81,3 +81,9 @@ pub struct WithLegacy {
     #[ssz(with = "legacy_vec")]
     pub c: Option<Vec<u8>>,
 }
+
+#[derive(Encode, Decode)]
+pub struct Gen1<T: ssz::Encode + ssz::Decode> {
+    pub a: T,
+    pub b: u8,
+}
